@@ -167,6 +167,10 @@ func cmdParseReplay(c Cmd) (interface{}, error) {
 	type rec struct {
 		Lang string `json:"lang"`
 		Text string `json:"text"`
+		// request part of a PromQL query (GrammarProm): carried through to the execution phase
+		Start uint32 `json:"start,omitempty"`
+		End   uint32 `json:"end,omitempty"`
+		Req   bool   `json:"req,omitempty"`
 	}
 	type res struct {
 		n, parsed, errors, panics int
